@@ -880,9 +880,17 @@ impl<'a> MetaStoreUpdate<'a> {
                 if chunk.role_position == ChunkRolePosition::SecondChunkMaster {
                     return Ok(());
                 }
+                // If the failed proxy held both masters, the masters of both halves move.
+                let both_halves = chunk.role_position == ChunkRolePosition::FirstChunkMaster;
                 chunk.role_position = ChunkRolePosition::SecondChunkMaster;
 
-                for migrating_slot_range in chunk.migrating_slots[0].iter_mut() {
+                for migrating_slot_range in chunk
+                    .migrating_slots
+                    .iter_mut()
+                    .enumerate()
+                    .filter(|(part, _)| *part == 0 || both_halves)
+                    .flat_map(|(_, slots)| slots.iter_mut())
+                {
                     migrating_slot_range.meta.epoch = new_epoch;
                     peer_position.insert((
                         migrating_slot_range.meta.src_chunk_index,
@@ -898,9 +906,17 @@ impl<'a> MetaStoreUpdate<'a> {
                 if chunk.role_position == ChunkRolePosition::FirstChunkMaster {
                     return Ok(());
                 }
+                // If the failed proxy held both masters, the masters of both halves move.
+                let both_halves = chunk.role_position == ChunkRolePosition::SecondChunkMaster;
                 chunk.role_position = ChunkRolePosition::FirstChunkMaster;
 
-                for migrating_slot_range in chunk.migrating_slots[1].iter_mut() {
+                for migrating_slot_range in chunk
+                    .migrating_slots
+                    .iter_mut()
+                    .enumerate()
+                    .filter(|(part, _)| *part == 1 || both_halves)
+                    .flat_map(|(_, slots)| slots.iter_mut())
+                {
                     migrating_slot_range.meta.epoch = new_epoch;
                     peer_position.insert((
                         migrating_slot_range.meta.src_chunk_index,
